@@ -17,6 +17,10 @@
 //   L and M watch operator new during the real load: a single request larger than max(file length, 4096) bytes is reported as
 //   <result>!alloc=<bytes> (the loader must not size a buffer from a field of the file that the file length does not back)
 //   V:hexcookie         session_sid::valid_sid                      Q:now:hexcookie  session_sid::load (valid_sid + load + expiry re-check)
+// payloads (hex fields of S K W P) may be written @len.seed.flip: byte i = (seed + 31 i + 17 (i>>8) + 101 (i>>16)) & 255, and byte `flip`
+//   (if 0 <= flip < len) xored with 0x5a; values longer than 4096 bytes are answered as #len.crc32 instead of hex
+// second line kind:  Z len.seed.flip[:n1,n2,..] ...   the class cppcms::impl::crc32_calc of private/crc32.h (what save_to_file and
+//   read_from_file use) is fed the pattern buffer in pieces of n1, n2, .. bytes and then the rest: answer = checksum() as 8 hex digits
 // answer: one token per op:  <result>{i=len.crc32,...}   (directory summary after the op, crc32 by own bitwise code)
 #include "session_posix_file_storage.h"
 #include <cppcms/session_storage.h>
@@ -45,6 +49,8 @@
 #include <stdio.h>
 #include <algorithm>
 #include "hexio.h"
+#include <cppcms/config.h>
+#include "crc32.h"
 using namespace hx;
 
 #include <new>
@@ -119,6 +125,31 @@ static uint32_t crc_own(std::string const &s)
 	return c ^ 0xFFFFFFFFu;
 }
 static std::string hex8(uint32_t v) { char b[16]; snprintf(b, sizeof(b), "%08x", v); return b; }
+static std::string pattern(long long len, long long seed, long long flip)
+{
+	std::string r; if(len <= 0) return r;
+	r.resize(size_t(len));
+	for(long long i = 0; i < len; i++) r[size_t(i)] = char((seed + 31 * i + 17 * (i >> 8) + 101 * (i >> 16)) & 255);
+	if(flip >= 0 && flip < len) r[size_t(flip)] = char(r[size_t(flip)] ^ 0x5a);
+	return r;
+}
+static std::string pattern_spec(std::string const &spec)   // len.seed.flip
+{
+	long long v[3] = { 0, 0, -1 }; int k = 0; size_t pos = 0;
+	while(k < 3 && pos <= spec.size()) {
+		size_t e = spec.find('.', pos); if(e == std::string::npos) e = spec.size();
+		v[k++] = strtoll(spec.substr(pos, e - pos).c_str(), 0, 10);
+		pos = e + 1;
+	}
+	return pattern(v[0], v[1], v[2]);
+}
+static std::string payload(std::string const &tok) { return (!tok.empty() && tok[0] == '@') ? pattern_spec(tok.substr(1)) : unhex(tok); }
+static std::string show(std::string const &d)
+{
+	if(d.size() <= 4096) return hex(d);
+	char b[64]; snprintf(b, sizeof(b), "#%llu.", (unsigned long long)d.size());
+	return std::string(b) + hex8(crc_own(d));
+}
 
 static bool slurp(std::string const &path, std::string &out)
 {
@@ -265,6 +296,26 @@ int main()
 	while(std::getline(std::cin, line)) {
 		std::vector<std::string> v = split(line);
 		std::ostringstream out;
+		if(!v.empty() && v[0] == "Z") {
+			for(size_t k = 1; k < v.size(); k++) {
+				std::vector<std::string> a = splitc(v[k], ':');
+				std::string buf = pattern_spec(a[0]);
+				cppcms::impl::crc32_calc calc;
+				size_t pos = 0;
+				if(a.size() > 1) {
+					std::vector<std::string> ns = splitc(a[1], ',');
+					for(size_t j = 0; j < ns.size(); j++) {
+						size_t n = std::min<size_t>(strtoull(ns[j].c_str(), 0, 10), buf.size() - pos);
+						calc.process_bytes(buf.data() + pos, n);
+						pos += n;
+					}
+				}
+				calc.process_bytes(buf.data() + pos, buf.size() - pos);
+				out << (k > 1 ? " " : "") << hex8(calc.checksum());
+			}
+			std::cout << out.str() << "\n";
+			continue;
+		}
 		if(v.size() < 2 || v[0].size() != 2 || v[0][0] != 'F' || v[1].compare(0, 2, "N=") != 0) { std::cout << "BAD-CASE\n"; continue; }
 		bool flock = v[0][1] == '1';
 		std::vector<std::string> names = splitc(v[1].substr(2), ',');
@@ -280,7 +331,7 @@ int main()
 					size_t i = atoi(a[1].c_str()); if(i >= names.size() || !valid32(names[i])) throw 1;
 					std::string path = dir + "/" + names[i];
 					time_t t = (time_t)strtoll(a[2].c_str(), 0, 10);
-					std::string d = unhex(a[3]);
+					std::string d = payload(a[3]);
 					std::string F; bool had = slurp(path, F); if(!had) F.clear();
 					g_short.clear(); g_short_i = 0;
 					if(op == 'W' && a[4] != "-") { std::vector<std::string> kv = splitc(a[4], ','); for(size_t j = 0; j < kv.size(); j++) g_short.push_back(strtoull(kv[j].c_str(), 0, 10)); }
@@ -307,7 +358,7 @@ int main()
 				}
 				else if(op == 'P' && a.size() == 3) {
 					size_t i = atoi(a[1].c_str()); if(i >= names.size()) throw 1;
-					spit(dir + "/" + names[i], unhex(a[2]));
+					spit(dir + "/" + names[i], payload(a[2]));
 					out << 'P';
 				}
 				else if(op == 'L' && a.size() == 3) {
@@ -317,7 +368,7 @@ int main()
 					alloc_watch aw(dir + "/" + names[i]);
 					bool ok = st->load(names[i], t, d);
 					std::string av = aw.verdict();
-					if(ok) out << "L=" << (long long)t << '.' << hex(d);
+					if(ok) out << "L=" << (long long)t << '.' << show(d);
 					else out << "L=none";
 					out << av;
 				}
@@ -339,7 +390,7 @@ int main()
 					bool ok;
 					try { ok = st->load(names[i], t, d); } catch(...) { g_rd = false; throw; }
 					g_rd = false;
-					if(ok) out << op << '=' << (long long)t << '.' << hex(d);
+					if(ok) out << op << '=' << (long long)t << '.' << show(d);
 					else out << op << "=none";
 				}
 				else if(op == 'G' && a.size() == 2) {
@@ -361,7 +412,7 @@ int main()
 						bool ok = st->load(names[i], t, d);
 						std::string av = aw.verdict();
 						setrlimit(RLIMIT_AS, &old_l);
-						if(ok) out << "M=" << (long long)t << '.' << hex(d); else out << "M=none";
+						if(ok) out << "M=" << (long long)t << '.' << show(d); else out << "M=none";
 						out << av;
 					}
 					catch(std::bad_alloc const &) { setrlimit(RLIMIT_AS, &old_l); out << "M=EXC" << aw.verdict(); }
@@ -428,7 +479,7 @@ int main()
 					cppcms::session_interface si(pool, j);
 					cppcms::sessions::session_sid sid(st);
 					time_t t = 0; std::string d = "stale";
-					if(sid.load(si, d, t)) out << "Q=" << (long long)t << '.' << hex(d);
+					if(sid.load(si, d, t)) out << "Q=" << (long long)t << '.' << show(d);
 					else out << "Q=none";
 				}
 				else if(op == 'X' && a.size() == 2) {
